@@ -388,17 +388,69 @@ var c01corpus = []string{
 	"svc+d/app!http:80:8080+adm:81:adm!- svc+d/api!http:80:8080+adm:81:adm!- ing+d/i1@1!haproxy,-!-!-!-!app:http ing+d/i2@2!haproxy,-!balance-algorithm=leastconn!-!-!api:http ing+d/i3@3!haproxy,-!-!b.local>/:Prefix:api:http!-!- sync ing~d/i1@1!other,-!-!-!-!-",
 	// finding 3: the backend link of a skipped declaration goes stale when the service re-maps the port
 	"svc+d/app!http:80:8080!- ep~d/app!10.0.1.1:r:app-1 svc+d/api!http:80:8080!- ep~d/api!10.0.2.1:r:api-1 ing+d/i1@1!haproxy,-!-!a.local>/a:Prefix:app:80!-!- ing+d/i2@2!haproxy,-!balance-algorithm=leastconn!a.local>/a:Prefix:api:80!-!- sync svc+d/api!web:80:8081!- sync ing+d/i3@3!haproxy,-!-!b.local>/:Prefix:api:80!-!- sync ing-d/i1 sync",
+	// side condition SCdef of the proof (harmless): a default backend arrives while the default host only has failed
+	// default backends of another ingress (both creation orders), followed by the events that make the loser win
+	"svc+d/app!http:80:8080!- ep~d/app!10.0.1.1:r:app-1 ing+d/i2@2!haproxy,-!balance-algorithm=leastconn!-!-!gone:80 sync ing+d/i1@1!haproxy,-!-!-!-!app:80 sync svc+d/gone!http:80:8080!- ep~d/gone!10.0.9.1:r:gone-1 sync ing-d/i1 sync",
+	"svc+d/app!http:80:8080!- ep~d/app!10.0.1.1:r:app-1 ing+d/i2@2!haproxy,-!balance-algorithm=leastconn!-!-!gone:80 sync ing+d/i1@3!haproxy,-!-!-!-!app:80 sync svc+d/gone!http:80:8080!- ep~d/gone!10.0.9.1:r:gone-1 sync ing-d/i1 sync",
 	// finding 2 (tcp services): the loser of a tcp port is not tracked; the default backend of an added tcp ingress is not pre-tracked
 	"svc+d/app!http:80:8080!- ep~d/app!10.0.1.1:r:app-1 svc+d/api!http:80:8080!- ep~d/api!10.0.2.1:r:api-1 ing+d/i1@1!haproxy,-!tcp-service-port=7000!_>/:Prefix:app:80!-!- ing+d/i2@2!haproxy,-!tcp-service-port=7000!_>/:Prefix:api:80!-!- sync ing-d/i1 sync",
 	"svc+d/app!http:80:8080!- ep~d/app!10.0.1.1:r:app-1 svc+d/api!http:80:8080!- ep~d/api!10.0.2.1:r:api-1 ing+d/i2@2!haproxy,-!tcp-service-port=7000!-!-!api:80 sync ing+d/i1@1!haproxy,-!tcp-service-port=7000!-!-!app:80 sync",
+}
+
+// exhaustive small scope: every sequence (length <= L) over a 10-operation alphabet built around the contested
+// host/path a.local/a (owner i1, loser i2 sharing its backend with i3), every operation followed by a sync;
+// for length 2 also the batched variant (both operations in one batch).
+var c01alphabet = []string{
+	"ing~d/i1@1!haproxy,-!-!a.local>/a:Prefix:app:80!-!-",
+	"ing~d/i2@2!haproxy,-!balance-algorithm=leastconn!a.local>/a:Prefix:api:80!-!-",
+	"ing~d/i3@3!haproxy,-!-!b.local>/:Prefix:api:80!-!-",
+	"ing-d/i1",
+	"ing-d/i2",
+	"svc-d/app",
+	"svc+d/app!http:80:8080!-",
+	"svc+d/api!web:80:8081!-",
+	"ing~d/i1@1!other,-!-!a.local>/a:Prefix:app:80!-!-",
+	"ing~d/i4@0!haproxy,-!-!-!-!app:80",
+}
+
+func c01exhaustive(c *ctx, maxLen int) {
+	base := []string{"svc+d/app!http:80:8080!-", "ep~d/app!10.0.1.1:r:app-1", "svc+d/api!http:80:8080!-", "ep~d/api!10.0.2.1:r:api-1", "sync"}
+	var rec func(prefix []int)
+	rec = func(prefix []int) {
+		if len(prefix) > 0 {
+			ops := append([]string(nil), base...)
+			for _, k := range prefix {
+				ops = append(ops, c01alphabet[k], "sync")
+			}
+			c01case(c, ops)
+			c.stat("exhaustive", 1)
+			if len(prefix) == 2 {
+				ops = append(append([]string(nil), base...), c01alphabet[prefix[0]], c01alphabet[prefix[1]], "sync")
+				c01case(c, ops)
+				c.stat("exhaustive", 1)
+			}
+		}
+		if len(prefix) == maxLen {
+			return
+		}
+		for k := range c01alphabet {
+			rec(append(append([]int(nil), prefix...), k))
+		}
+	}
+	rec(nil)
 }
 
 func runC01(c *ctx) {
 	for _, h := range c01corpus {
 		c01case(c, strings.Fields(h))
 	}
+	if c.thorough() {
+		c01exhaustive(c, 3)
+	} else {
+		c01exhaustive(c, 2)
+	}
 	r := gen.New(c.seed)
-	n := 320
+	n := 450
 	if c.thorough() {
 		n = 4000
 	}
